@@ -25,7 +25,7 @@ ASSUMPTIONS = [
     "validity predicate as transcribed in refmodel/{dtl,ordered,unordered}.py from the property statement",
     "for multifurcating inputs the refinements themselves are checked by C08; here only that solutions are valid on their own trees and keep the leaf data",
 ]
-BUDGET = {"quick": 300, "thorough": 3300}
+BUDGET = {"quick": 900, "thorough": 3300}
 
 DEGENERATE = [(5, 0, 3, 1, 1), (0, 0, 0, 0, 0), (2, 0, 0, 1, 0), (3, 1, 4, 1, 0)]
 FULL_MENU = spaces.CV_CORE + DEGENERATE
